@@ -27,6 +27,23 @@ def _with_return(fn, stmts, value):
     return ast.fix_missing_locations(g)
 
 
+def _old_def(module, defname, signature):
+    """fallback when a function leaves the translatable subset: keep the previously generated definition (tie T is then
+    inapplicable for it and the differential correspondence carries the tie alone); a NaN stub if there is none"""
+    import os
+    import re
+    from translate import GEN
+    try:
+        with open(os.path.join(GEN, module + ".lean")) as fh:
+            old = fh.read()
+    except OSError:
+        old = ""
+    m = re.search(r"((?:/--[^\n]*-/\n)?def " + re.escape(defname) + r" .*?)(?=\n\n|\Z)", old, flags=re.S)
+    if m:
+        return m.group(1).rstrip("\n") + "\n"
+    return f"/-- STUB: translator inapplicable and no previous definition -/\ndef {defname} {signature} : Fl :=\n  SV.Fl.nan\n"
+
+
 def generate():
     tree = parse(REL)
     out = [HEADER.format(src=REL, ns="Murphy")]
@@ -42,13 +59,17 @@ def generate():
             ret = fn.body[-1]
             if not (isinstance(ret, ast.Return) and isinstance(ret.value, ast.Tuple) and len(ret.value.elts) == 2):
                 raise Unsupported("expected `return over, under`")
+            blocks = []
             for part, elt in zip(("over", "under"), ret.value.elts):
                 body = translate_function(_with_return(fn, fn.body[:-1], elt), _env(PARAMS))
-                out.append(f"/-- `{name}` — {part}-forecast component -/\n"
-                           f"def {short}_{part} (fcst obs theta alpha huber_a : Fl) : Fl :=\n{body}\n")
+                blocks.append(f"/-- `{name}` — {part}-forecast component -/\n"
+                              f"def {short}_{part} (fcst obs theta alpha huber_a : Fl) : Fl :=\n{body}\n")
+            out += blocks
             status[name] = "ok"
         except (Unsupported, KeyError) as u:
             status[name] = f"inapplicable: {u}"
+            for part in ("over", "under"):
+                out.append(_old_def("Murphy", f"{short}_{part}", "(fcst obs theta alpha huber_a : Fl)"))
 
     # ---- combine block of murphy_score: score / over / under as functions of (over, under, fcst1)
     try:
@@ -63,9 +84,10 @@ def generate():
         if score_stmt is None or decomp is None:
             raise Unsupported("combine block not found")
         names = ["over", "under", "fcst1"]
+        cblocks = []
         body = translate_function(_with_return(ms, [], score_stmt.value), _env(names))
-        out.append(f"/-- `murphy_score`: total = {ast.unparse(score_stmt.value)} -/\n"
-                   f"def combine_total (over under fcst1 : Fl) : Fl :=\n{body}\n")
+        cblocks.append(f"/-- `murphy_score`: total = {ast.unparse(score_stmt.value)} -/\n"
+                       f"def combine_total (over under fcst1 : Fl) : Fl :=\n{body}\n")
         found = {}
         for s in decomp.body:
             if isinstance(s, ast.Assign) and isinstance(s.targets[0], ast.Name) and s.targets[0].id in ("over", "under"):
@@ -79,8 +101,8 @@ def generate():
             if k not in found:
                 raise Unsupported(f"decomposition statement for {k} not found")
             body = translate_function(_with_return(ms, [], found[k].value), _env(names))
-            out.append(f"/-- `murphy_score` (decomposition): {k} = {ast.unparse(found[k].value)} -/\n"
-                       f"def combine_{k} (over under fcst1 : Fl) : Fl :=\n{body}\n")
+            cblocks.append(f"/-- `murphy_score` (decomposition): {k} = {ast.unparse(found[k].value)} -/\n"
+                           f"def combine_{k} (over under fcst1 : Fl) : Fl :=\n{body}\n")
         # which variable goes under which name in the result
         srcs = nm = None
         for s in decomp.body:
@@ -91,9 +113,12 @@ def generate():
                     nm = [e.value for e in s.value.elts]
         if srcs is None or nm is None or sorted(zip(nm, srcs)) != [("overforecast", "over"), ("underforecast", "under")]:
             raise Unsupported(f"decomposition naming changed: {nm} <- {srcs}")
+        out += cblocks
         status["murphy_score.combine"] = "ok"
     except (Unsupported, KeyError, AttributeError) as u:
         status["murphy_score.combine"] = f"inapplicable: {u}"
+        for k in ("total", "over", "under"):
+            out.append(_old_def("Murphy", f"combine_{k}", "(over under fcst1 : Fl)"))
 
     out.append("end SV.Gen.Murphy\n")
     st = write_if_changed("Murphy", "\n".join(out))
